@@ -2,7 +2,7 @@
 use soroban_sdk::{contract, contractimpl, contracttype, Address, BytesN, Env, Symbol, Val, Vec};
 use stellar_governance::timelock::{
     cancel_operation, execute_operation, get_min_delay, get_operation_ledger, get_operation_state, hash_operation,
-    schedule_operation, set_execute_operation, set_min_delay, Operation, OperationState,
+    is_operation_done, is_operation_pending, is_operation_ready, operation_exists, schedule_operation, set_execute_operation, set_min_delay, Operation, OperationState,
 };
 
 #[contract]
@@ -40,6 +40,10 @@ impl TlWrap {
             OperationState::Ready => 2,
             OperationState::Done => 3,
         }
+    }
+    /// (exists, pending, ready, done) as the four predicates answer
+    pub fn predicates(e: &Env, id: BytesN<32>) -> (bool, bool, bool, bool) {
+        (operation_exists(e, &id), is_operation_pending(e, &id), is_operation_ready(e, &id), is_operation_done(e, &id))
     }
     pub fn ledger_of(e: &Env, id: BytesN<32>) -> u32 {
         get_operation_ledger(e, &id)
